@@ -22,6 +22,8 @@ import (
 
 const verifDir = "/verif"
 
+var outputDir = verifDir
+
 type KnownFinding struct {
 	Property   string `json:"property"`
 	Obligation string `json:"obligation"`
@@ -184,7 +186,7 @@ var safeName = regexp.MustCompile(`[^A-Za-z0-9_.-]+`)
 func (c *CheckCtx) finish() int {
 	id := c.prop.ID
 	known := loadKnownFindings()
-	replayDir := filepath.Join(verifDir, "replays", id)
+	replayDir := filepath.Join(outputDir, "replays", id)
 	os.RemoveAll(replayDir)
 	os.MkdirAll(replayDir, 0o755)
 	discharged := 0
@@ -276,9 +278,9 @@ func (c *CheckCtx) finish() int {
 		"property_id": id, "tier": c.tier, "seed": c.seed, "level": c.prop.Level, "coverage": cov,
 		"assumptions": assumptions, "wall_s": time.Since(c.start).Seconds(), "violations": violations,
 	}
-	os.MkdirAll(filepath.Join(verifDir, "evidence"), 0o755)
+	os.MkdirAll(filepath.Join(outputDir, "evidence"), 0o755)
 	data, _ := json.MarshalIndent(ev, "", " ")
-	os.WriteFile(filepath.Join(verifDir, "evidence", id+".json"), data, 0o644)
+	os.WriteFile(filepath.Join(outputDir, "evidence", id+".json"), data, 0o644)
 	fmt.Printf("property=%s tier=%s functions=%d obligations=%d discharged=%d failed=%d known=%d violations=%d wall=%.1fs\n",
 		id, c.tier, len(funcs), len(c.obls), discharged, len(c.failures), len(knownMatched), violations, time.Since(c.start).Seconds())
 	if len(c.machineryErrors) > 0 {
@@ -349,7 +351,9 @@ func cmdCheck(args []string) int {
 	prop := fs.String("property", "", "property id")
 	tier := fs.String("tier", "", "quick|thorough")
 	repo := fs.String("repo", "/repo", "repository")
+	outDir := fs.String("out", verifDir, "directory receiving evidence/ and replays/ (selftest uses a scratch directory)")
 	fs.Parse(args)
+	outputDir = *outDir
 	if *tier == "" {
 		*tier = os.Getenv("VERIF_TIER")
 	}
